@@ -496,7 +496,7 @@ def _style_eq(got, want):
 class Sim:
     id = ID
     level = LEVEL
-    runs = {"quick": 1200}
+    runs = {"quick": 3000}
     budget = {"thorough": 600}
     chunk = {"quick": 25, "thorough": 25}
     cross_n = 16
